@@ -50,7 +50,7 @@ Proof. vm_compute. reflexivity. Qed.
 (* a font carrying only kern: f=1 i=2, widths 500/300/310, monospaced flag
    off but no ligature characters in the cmap *)
 Definition ex_cm : list (N * N) := [(102, 1); (105, 2)].
-Definition ex_outl : outlines := OGlyf (Some [500; 300; 310]%Z).
+Definition ex_outl : outlines := OGlyf 3 (Some [500; 300; 310]%Z).
 
 Example ex_kern_font :
   exists f,
@@ -100,10 +100,28 @@ Example ex_not_identity :
   = Ok [mkG 1 [102] 0 0 305; mkG 2 [105] 0 0 310].
 Proof. vm_compute. reflexivity. Qed.
 
-(* a character mapped beyond the glyph set: Go panics *)
-Example ex_layout_panic :
-  run_layout [] false false (mkFont [(97, 9)] (OCff [500]%Z) None None None) None None [97] = Panic.
+(* a character mapped beyond the glyph set: the glyph gets no width
+   (fixes/C07-layout-gid-beyond-font.diff; Go panicked here before) *)
+Example ex_layout_beyond :
+  run_layout [] false false (mkFont [(97, 9)] (OCff [500]%Z) None None None) None None [97]
+  = Ok [mkG 9 [97] 0 0 0].
 Proof. vm_compute. reflexivity. Qed.
+
+(* the only panic left in the width loop: a glyf font with fewer widths than
+   glyphs (sfnt.Read never delivers one) and a glyph in between *)
+Example ex_layout_panic :
+  run_layout [] false false (mkFont [(97, 1)] (OGlyf 2 (Some [500]%Z)) None None None) None None [97] = Panic /\
+  ~ glyphs_exist [(97, 1)] (OGlyf 2 (Some [500]%Z)) None [97] /\
+  ~ outlines_consistent (OGlyf 2 (Some [500]%Z)).
+Proof.
+  split; [vm_compute; reflexivity|]. split.
+  - intros H. apply (H 97); [left; reflexivity|]. vm_compute. reflexivity.
+  - cbn. discriminate.
+Qed.
+
+Example ex_consistent : outlines_consistent ex_outl /\ outlines_consistent (OCff [500; 300]%Z) /\
+                        outlines_consistent (OGlyf 7 None).
+Proof. repeat split. Qed.
 
 (* ---------------- standard ligatures ---------------- *)
 
@@ -121,10 +139,10 @@ Proof. intros r [<-|[<-|[<-|[]]]]; vm_compute; discriminate. Qed.
 (* proportional font without GSUB: "fi" becomes the ligature unless liga is off *)
 Example ex_lig_layout :
   run_read_layout [([tag_undLatn], O)] false false [(102, 1); (105, 2); (64257, 3)]
-                  (OGlyf (Some [500; 300; 310; 600]%Z)) None false None None None [102; 105; 102]
+                  (OGlyf 4 (Some [500; 300; 310; 600]%Z)) None false None None None [102; 105; 102]
   = Ok [mkG 3 [102; 105] 0 0 600; mkG 1 [102] 0 0 300] /\
   run_read_layout [([tag_undLatn], O)] false false [(102, 1); (105, 2); (64257, 3)]
-                  (OGlyf (Some [500; 300; 310; 600]%Z)) None false None (Some [(tag_liga, false)]) None [102; 105; 102]
+                  (OGlyf 4 (Some [500; 300; 310; 600]%Z)) None false None (Some [(tag_liga, false)]) None [102; 105; 102]
   = Ok [mkG 1 [102] 0 0 300; mkG 2 [105] 0 0 310; mkG 1 [102] 0 0 300].
 Proof. split; vm_compute; reflexivity. Qed.
 
